@@ -194,13 +194,43 @@ Fixpoint observe_steps (s : state) (steps : list (list op)) :=
   | ops :: r => let s' := fold_left step ops s in observe s' :: observe_steps s' r
   end.
 
-(* ---- LocalReferenceable.callRemote: fireEventually().addCallback(call) -- the eventual queue alone orders calls *)
-Record lstate := lmk { l_next : nat; l_evq : list nat; l_entered : list nat }.
-Inductive lop := LIssue | LTurn.
+(* ---- foolscap.eventual's queue as a channel.  Two users depend on nothing but this queue for their order:
+   LocalReferenceable.callRemote (fireEventually().addCallback(call)) and broker.LoopbackTransport, the pair a Tub
+   uses to talk to itself, whose write() is eventually(peer.dataReceived, bytes) -- there the byte stream of the
+   connection shares the queue with every other eventual-send of the process.
+     LData n   the n-th item written (a local call / a chunk of bytes)
+     LNop      an unrelated callable
+     LBoom     an unrelated callable that raises (log.err)
+     LSpawn    an unrelated callable that, when it runs, writes the next item (e.g. issues a call)
+   What a raising callable does to the rest of the batch is read from _turn (evq_isolates_exceptions). *)
+Inductive lthunk := LData (n : nat) | LNop | LBoom | LSpawn.
+Record lstate := lmk { l_next : nat; l_evq : list lthunk; l_entered : list nat }.
+Inductive lop := LIssue | LNoise (raises : bool) | LSpawnOp | LTurn.
+
+Fixpoint run_batch (batch : list lthunk) (s : lstate) : lstate :=
+  match batch with
+  | [] => s
+  | t :: rest =>
+    match t with
+    | LData n => run_batch rest (lmk (l_next s) (l_evq s) (l_entered s ++ [n]))
+    | LNop => run_batch rest s
+    | LSpawn => run_batch rest (lmk (S (l_next s)) (q_put evq_push (LData (l_next s)) (l_evq s)) (l_entered s))
+    | LBoom =>
+      if evq_isolates_exceptions then run_batch rest s
+      else (* the rest of the batch is queued again, behind what was queued during this turn *)
+        lmk (l_next s) (fold_left (fun q t' => q_put evq_push t' q) rest (l_evq s)) (l_entered s)
+    end
+  end.
+
 Definition lstep (s : lstate) (o : lop) : lstate :=
   match o with
-  | LIssue => lmk (S (l_next s)) (q_put evq_push (l_next s) (l_evq s)) (l_entered s)
-  | LTurn => lmk (l_next s) []
-                 (l_entered s ++ match evq_iter with IterForward => l_evq s | IterReverse => rev (l_evq s) end)
+  | LIssue => lmk (S (l_next s)) (q_put evq_push (LData (l_next s)) (l_evq s)) (l_entered s)
+  | LNoise b => lmk (l_next s) (q_put evq_push (if b then LBoom else LNop) (l_evq s)) (l_entered s)
+  | LSpawnOp => lmk (l_next s) (q_put evq_push LSpawn (l_evq s)) (l_entered s)
+  | LTurn => run_batch (match evq_iter with IterForward => l_evq s | IterReverse => rev (l_evq s) end)
+                       (lmk (l_next s) [] (l_entered s))
   end.
 Definition lrun (ops : list lop) : lstate := fold_left lstep ops (lmk 0 [] []).
+
+Fixpoint datas (q : list lthunk) : list nat :=
+  match q with [] => [] | LData n :: r => n :: datas r | _ :: r => datas r end.
